@@ -74,4 +74,59 @@ theorem mkGroup_fits (ref : BlockAddr) (more : List BlockAddr) (lastStop : Nat)
     refine List.mem_map.mpr ⟨_, hm, ?_⟩
     simp [List.getD_eq_getElem?_getD, hget]
 
+theorem numBits_lower (n : Nat) (h : 0 < n) : 2 ^ (numBits n - 1) ≤ n := by
+  induction n using Nat.strongRecOn with
+  | _ n ih =>
+    cases n with
+    | zero => omega
+    | succ m =>
+      rw [numBits]
+      simp only [Nat.add_sub_cancel]
+      by_cases hm : (m + 1) / 2 = 0
+      · rw [hm]; simp [numBits]
+      · have hpos : 0 < (m + 1) / 2 := Nat.pos_of_ne_zero hm
+        have := ih ((m + 1) / 2) (by omega) hpos
+        have hnb : 1 ≤ numBits ((m + 1) / 2) := by
+          cases hq : (m + 1) / 2 with
+          | zero => omega
+          | succ q => rw [numBits]; omega
+        have e : numBits ((m + 1) / 2) = (numBits ((m + 1) / 2) - 1) + 1 := by omega
+        rw [e, Nat.pow_succ]
+        omega
+
+theorem foldl_max_attained (l : List Nat) (a : Nat) : l.foldl max a = a ∨ l.foldl max a ∈ l := by
+  induction l generalizing a with
+  | nil => exact Or.inl rfl
+  | cons x rest ih =>
+    simp only [List.foldl_cons]
+    rcases ih (max a x) with h | h
+    · rw [h]
+      rcases Nat.le_total a x with hax | hxa
+      · rw [Nat.max_eq_right hax]; exact Or.inr (by simp)
+      · rw [Nat.max_eq_left hxa]; exact Or.inl rfl
+    · exact Or.inr (List.mem_cons_of_mem _ h)
+
+/-- the width is not only sufficient but the smallest one for the chosen slope: with one bit less
+some deviation would not fit -/
+theorem findBestSlope_width_minimal (els : List (Nat × Nat))
+    (h56 : numBits (maxDeviation (findBestSlope els).1 els) ≤ 56)
+    (hpos : 0 < maxDeviation (findBestSlope els).1 els) :
+    ∃ e ∈ els, 2 ^ ((findBestSlope els).2 - 2) ≤ deviation (findBestSlope els).1 e.1 e.2 := by
+  have hdef : (findBestSlope els).2 = computeNumBits (maxDeviation (findBestSlope els).1 els) + 1 := rfl
+  have hc : computeNumBits (maxDeviation (findBestSlope els).1 els)
+      = numBits (maxDeviation (findBestSlope els).1 els) := by
+    unfold computeNumBits; simp [h56]
+  have hlow := numBits_lower _ hpos
+  have hatt := foldl_max_attained (els.map (fun e => deviation (findBestSlope els).1 e.1 e.2)) 0
+  have hmd : maxDeviation (findBestSlope els).1 els
+      = (els.map (fun e => deviation (findBestSlope els).1 e.1 e.2)).foldl max 0 := rfl
+  rcases hatt with h0 | hmem
+  · rw [hmd, h0] at hpos; omega
+  · obtain ⟨e, he, hev⟩ := List.mem_map.mp hmem
+    refine ⟨e, he, ?_⟩
+    rw [hev, ← hmd, hdef, hc]
+    have : numBits (maxDeviation (findBestSlope els).1 els) + 1 - 2
+        = numBits (maxDeviation (findBestSlope els).1 els) - 1 := by omega
+    rw [this]; exact hlow
+
 end TantivyModel.SSTable
